@@ -3,6 +3,7 @@ import Logrange.Proofs.RdRngBwd
 import Logrange.Proofs.RdRngWin
 import Logrange.Proofs.RdRngPaging
 import Logrange.Proofs.RdRngQueryLift
+import Logrange.Proofs.RdRngGrow
 import Logrange.Generated.C03
 /-!
 # C03 with RANGE — the ranged journal iterator (`partition.JIterator` + `chkSelector`) and paging over it
@@ -159,6 +160,19 @@ def WinMonotone (j j' : Journal) (lo hi : Option Int) : Prop :=
     (∀ (k : Nat) (r : Rec), c.recs[k]? = some r → inRange lo hi r = true → c'.minPos ≤ k ∧ k ≤ c'.maxPos) ∧
     (∀ (k : Nat) (r : Rec), c'.recs[k]? = some r → c'.minPos ≤ k → k < c.minPos → k < c.cnt → inRange lo hi r = false)
 
+/-- **appends_between_pages with RANGE**: when the journal grows between pages (`GrowsChainR`: appends only, every journal
+value sorted and with windows SOUND for the range — which for the real time index is `Props/C02Win.lean`:
+`rd_window_sound_pipeline`, `win_monotone_of_win_sound`/`win_monotone_pipeline` being the body of `WinMonotone` above —, pages
+after a change served by a new cursor built from the position text, a held cursor only while the journal is unchanged), the
+concatenated pages are a prefix of the matching events of the FINAL journal in stored order — nothing twice, nothing foreign,
+later appends later — and if the last page came back shorter than its limit they are all of them. -/
+theorem appends_between_pages_ranged (name : Nat) (w : Bool) (lo hi : Option Int) (j0 : Journal) (l0 : Nat)
+    (steps : List PStep) (hne : j0 ≠ []) (hs : Sorted j0) (hw : WinSound j0 lo hi) (hch : GrowsChainR lo hi j0 steps) :
+    ∃ R, (flat (lastJ j0 steps)).filter (passR lo hi w) = (pagesR lo hi name w j0 l0 steps).flatten ++ R ∧
+      (∀ st evs, steps.getLast? = some st → (pagesR lo hi name w j0 l0 steps).getLast? = some evs →
+        evs.length < st.limit → R = []) :=
+  rg_pages_grow lo hi j0 l0 steps hne hs hw hch
+
 /-! ### non-vacuity and the boundary of `RWF`, evaluated by the kernel -/
 
 def rr (l : Nat) (t : Int) (k : Bool := true) : Rec := { lbl := l, ts := t, keep := k }
@@ -211,5 +225,12 @@ theorem cex_setpos_into_open_chunk_before_window :
     let s := (rGet jx {}).1                       -- chunk 10 open at index 2
     (rDrain jx 12 (rSetPos jx s ⟨10, 0⟩)).map (·.lbl) = [0, 8, 9] ∧
     (rDrain jx 12 (rSetPos jx {} ⟨10, 0⟩)).map (·.lbl) = [2, 3, 4, 8, 9] := by decide +kernel
+
+/-- non-vacuity: the chunk grows between two pages (its window with it), the second page is served by a new cursor -/
+example :
+    let j0 : Journal := [⟨10, [rr 0 10, rr 1 12, rr 2 12], 1, 2⟩]
+    let j1 : Journal := [⟨10, [rr 0 10, rr 1 12, rr 2 12, rr 3 13, rr 4 14], 1, 3⟩, ⟨20, [rr 5 12], 0, maxU32⟩]
+    (pagesR (some 12) (some 13) 0 false j0 1 [⟨.fresh, 5, j1⟩]).flatten = [rr 1 12, rr 2 12, rr 3 13, rr 5 12] := by
+  decide +kernel
 
 end Logrange.Props.C03Ranged
